@@ -1,6 +1,9 @@
 (* C07 - extended semantics: vacuity clauses, then the strict definition over feasible worlds and finite layers. *)
 From InfOCF Require Import Core Tol Form Model Spec Exec ThmOps ThmTop ThmPExt.
 From InfOCFProps Require Import Ex.
+From InfOCF Require Import PyLib TieCons TieZ TieP TieTop.
+From InfOCFGen Require Import SrcCond SrcCons SrcInf SrcZ SrcP.
+From Coq Require Import ZArith.
 
 (* extended p-entailment (Pinf: extended partition of D + (not B|A), then "no world spares the last layer and satisfies A"):
    the dictionary keys of the base are distinct *)
@@ -36,6 +39,21 @@ Print Assumptions C07_coincide_w.
 Theorem C07_coincide_lex : forall n D q P, D <> [] -> part_strict n D = Some P -> infer n SysLex true D q = infer n SysLex false D q.
 Proof. exact ext_strict_coincide_lex. Qed.
 Print Assumptions C07_coincide_lex.
+
+(* SOURCE TIE (extended mode).  The functions GENERATED on every run from /repo's consistency_sat.py, inference.py,
+   system_z.py and p_entailment.py answer with the extended definitions. *)
+Theorem C07_source_system_z_extended : forall n (d:dict Z cond) q u Pc st, dict_values d <> [] ->
+  py_consistency n (S (length d)) (Build_pybase d) u true = Return (PVal Pc, st) ->
+  py_general_inference n (py_SystemZ_inference n (S (length Pc)) Pc u) true q tt tt
+  = Return (ext_spec (worlds n) (acP Pc) q z_spec).
+Proof. exact src_z_ext_spec. Qed.
+Print Assumptions C07_source_system_z_extended.
+Theorem C07_source_p_entailment_extended : forall n (d:dict Z cond) q u Pc st, dict_values d <> [] -> NoDup (map ckey (dict_values d)) ->
+  py_consistency n (S (length d)) (Build_pybase d) u true = Return (PVal Pc, st) ->
+  py_general_inference n (py_PEntailment_inference n (S (S (length d))) (Build_pybase d) u) true q tt tt
+  = Return (ext_spec (worlds n) (acP Pc) q (p_def (fresh (dict_values d)))).
+Proof. exact src_p_ext_spec. Qed.
+Print Assumptions C07_source_p_entailment_extended.
 
 Example weak_birds : part_strict 4 birds_weak = None
   /\ map (fun s => map (infer 4 s true birds_weak) [q_fp; q_nfp; q_wp]) [SysP; SysZ; SysW; SysLex]
